@@ -13,6 +13,8 @@ Section Rel.
   Variables fp fg : list nat.
   Hypothesis E : Emb (grp pp) (grp ppM) fp fg.
   Hypothesis Hpos : 0 < npersons (grp pp).
+  Hypothesis HU : roles_unique (grp pp).
+  Hypothesis HUM : roles_unique (grp ppM).
 
   Definition fsel (c : ent) : list nat := pick c fp fg.
 
@@ -82,7 +84,17 @@ Section Rel.
         cbn [bind rmap Rr]. rewrite !map_map. apply Rv_map. left. split; [exact H2|reflexivity].
       + destruct (all_local _ _ _ _ E Hpos xM role Hl) as [sM [H1 [H2 H3]]]. rewrite H1, H3.
         cbn [rmap Rr]. left. split; [now rewrite map_length|]. cbn [fsel pick]. symmetry. apply gather_map.
-    - destruct g; cbn [agg]; unfold any.
+      + destruct role as [r|]; [|reflexivity].
+        assert (D : {role_max (g_entity (grp pp)) r = Some 1} + {role_max (g_entity (grp pp)) r <> Some 1}).
+        { destruct (role_max (g_entity (grp pp)) r) as [[|[|k]]|];
+            [right; discriminate|left; reflexivity|right; discriminate|right; discriminate]. }
+        destruct D as [Hm|Hm].
+        * assert (HmM : role_max (g_entity (grp ppM)) r = Some 1) by (now rewrite (e_ent _ _ _ _ E)).
+          destruct (vfp_local _ _ _ _ E Hpos xM r Hm (HU r Hm) (HUM r HmM) Hl) as [sM [H1 [H2 H3]]].
+          rewrite H1, H3. left. split; [exact H2|reflexivity].
+        * destruct (vfp_not_unique _ _ _ _ E xM (gather fp xM) r Hm) as [-> ->]. reflexivity.
+    - destruct g; cbn [agg]; unfold any; [| | |
+        destruct role as [r|]; [destruct (vfp_nil _ _ _ _ E Hpos r) as [e [-> ->]]|]; reflexivity].
       + destruct (sum_nil _ _ _ _ E Hpos role) as [-> ->]. reflexivity.
       + destruct (sum_nil _ _ _ _ E Hpos role) as [-> ->]. reflexivity.
       + destruct (all_nil _ _ _ _ E Hpos role) as [-> ->]. reflexivity.
